@@ -27,6 +27,7 @@ impl Harness for H {
         match self.kind {
             "bm25" => Case::T(bm25::generate(case_seed, idx, tier)),
             "hnsw" => Case::V(hnsw::generate(case_seed, idx, tier)),
+            "btree-unique" => Case::B(btree::generate_unique_contention(case_seed, idx, tier)),
             _ => Case::B(btree::generate(case_seed, idx, tier)),
         }
     }
@@ -76,8 +77,25 @@ fn main() {
                 required_faults: &["power_loss", "power_loss_in_flush", "power_loss_in_obsolete_deletion"],
             },
             vec![(
-                PhaseSpec { label: "btree", quick_runs: 6000, thorough_runs: 600000, quick_budget_s: 60.0, thorough_budget_s: 1200.0 },
+                PhaseSpec { label: "btree", quick_runs: 30000, thorough_runs: 600000, quick_budget_s: 60.0, thorough_budget_s: 1200.0 },
                 Arc::new(H { kind: "btree" }),
+            )],
+        ),
+        "C04" => standard_main(
+            &opts,
+            &CheckSpec {
+                harness_name: "h_index",
+                level: "exploration",
+                rule: "thread-level half of C04 (the other half is h_db): one evaluation = one run of 2-3 real threads contending for ONE value of a unique BTreeIndex (distinct claimant ids; the holder may be removed and the value re-claimed) under a seeded baton schedule at the index's yield points; the history must be linearizable against the unique multimap, at most one owner may remain, flush -> reload must agree; distinct = distinct thread-schedule signatures with at least one context switch",
+                real: &["anda_db_btree::BTreeIndex insert/remove on a unique index (the structure every unique field and multi-field index of a Collection is enforced by)"],
+                stub: STUB,
+                assumptions: &["anda_db::Collection runs these calls from tokio worker threads; here the threads are real and exactly one runs at a time, switched at the verif_point! hooks"],
+                required_probes: &["thread_switches", "unique_insert_refused_under_threads", "unique_insert_accepted_under_threads", "yield:btree.insert.start"],
+                required_faults: &[],
+            },
+            vec![(
+                PhaseSpec { label: "unique-threads", quick_runs: 8000, thorough_runs: 300000, quick_budget_s: 30.0, thorough_budget_s: 600.0 },
+                Arc::new(H { kind: "btree-unique" }),
             )],
         ),
         "C11" => standard_main(
@@ -93,7 +111,7 @@ fn main() {
                 required_faults: &["power_loss", "power_loss_in_flush", "power_loss_in_obsolete_deletion"],
             },
             vec![(
-                PhaseSpec { label: "bm25", quick_runs: 3000, thorough_runs: 300000, quick_budget_s: 60.0, thorough_budget_s: 1200.0 },
+                PhaseSpec { label: "bm25", quick_runs: 15000, thorough_runs: 300000, quick_budget_s: 60.0, thorough_budget_s: 1200.0 },
                 Arc::new(H { kind: "bm25" }),
             )],
         ),
